@@ -532,3 +532,47 @@ mod tests {
         assert_close(&read_vec(&mut math, &recovered), &z_orig, 1e-12);
     }
 }
+
+#[cfg(nuts_rs_verif)]
+impl<M: Math> LowRankMassMatrix<M> {
+    /// `update` with plain slices; `vecs` holds the columns of U.
+    pub fn verif_update(
+        &mut self,
+        math: &mut M,
+        stds: &[f64],
+        mean: &[f64],
+        vals: &[f64],
+        vecs: &[Vec<f64>],
+        mean_low_rank: &[f64],
+    ) {
+        let d = stds.len();
+        let stds_c = Col::from_fn(d, |i| stds[i]);
+        let mean_c = Col::from_fn(d, |i| mean[i]);
+        let vals_c = Col::from_fn(vals.len(), |i| vals[i]);
+        let vecs_m = Mat::from_fn(d, vecs.len(), |i, j| vecs[j][i]);
+        let mu_c = Col::from_fn(d, |i| mean_low_rank[i]);
+        self.update(math, stds_c, mean_c, vals_c, vecs_m, mu_c);
+    }
+
+    /// `(diag params, sqrt eigenvalues, inverse sqrt eigenvalues, mu, logdet, id)`
+    #[allow(clippy::type_complexity)]
+    pub fn verif_params(
+        &self,
+        math: &mut M,
+    ) -> (
+        (Vec<f64>, Vec<f64>, Vec<f64>, f64, i64),
+        Option<(Vec<f64>, Vec<f64>, Vec<f64>, f64)>,
+        f64,
+        i64,
+    ) {
+        let inner = self.inner.as_ref().map(|i| {
+            (
+                math.eigs_as_array(&i.vals_sqrt).into_vec(),
+                math.eigs_as_array(&i.vals_sqrt_inv).into_vec(),
+                math.box_array(&i.mu).into_vec(),
+                i.logdet_contribution,
+            )
+        });
+        (self.diag.verif_params(math), inner, self.logdet, self.id)
+    }
+}
